@@ -716,6 +716,11 @@ def msm_expect(g, number, msg):
     """-> ('ok', satmask, sigmask, cellmask, ncells_len, S, G, cells) or ('err', set_of_breached_classes)"""
     lay = [f for _, f in g.layouts[number]["fields"] if f["k"] == "msm"][0]
     table = {(b, c): i for b, c, i in g.sig[lay["gnss"]]}
+    # where the independent table of standard positions (RTCM 10403 signal masks, used by C18) knows a descriptor, its
+    # position is taken from there, not from the regenerated table
+    for (b0, ch), pos in STANDARD.get(lay["gnss"], {}).items():
+        if (b0, ord(ch)) in table:
+            table[(b0, ord(ch))] = pos
     seg = msg[2][1][-1]
     sats = [r[1][0][1] for r in seg[1][0][1]]
     cells = [(r[1][0][1], (r[1][1][1], r[1][1][2])) for r in seg[1][1][1]]
@@ -1398,6 +1403,16 @@ def msm_hostile_frames(ctx):
         shapes = [(0, 0), (2**64 - 1, 2**32 - 1), (2**64 - 1, 3), (0xFF, 0x1FF), (0x1FF, 0xFF), (1, 0), (0, 1), (0xFFFF, 0xF), (0x1FFFF, 0xF), ((1 << 33) - 1, 3),
                   (1, 2**32 - 1), (3, 2**32 - 1), (1 << 63, (1 << 17) - 1), (7 << 40, (1 << 21) - 1), (1 << 20, 0xFFFF8000), (5, 0x0007FFFF),
                   (rng.getrandbits(64), rng.getrandbits(32))]
+        # grids with an explicit cell mask: only the last cell, only the first, all, alternating (64-cell grids and smaller)
+        for sm, gm in (((1 << 32) - 1, 3), ((1 << 64) - 1, 1), (0xFFFF, 0xF), (0xFF, 0xFF), (0x7, 0x1F), (1, 1)):
+            ncell = bin(sm).count("1") * bin(gm).count("1")
+            for cm in (1, 1 << (ncell - 1), (1 << ncell) - 1, int("10" * 32, 2) & ((1 << ncell) - 1), 3):
+                body = bytes(rng.getrandbits(8) for _ in range(700))
+                body = set_bits(body, 0, 12, n)
+                body = set_bits(body, hb, 64, sm)
+                body = set_bits(body, hb + 64, 32, gm)
+                body = set_bits(body, hb + 96, ncell, cm & ((1 << ncell) - 1))
+                out.append("DECODE %s #msmcells" % hx(mkframe(body)))
         for sm, gm in shapes:
             for L in (rng.choice([22, 23, 30]), 200, 1023):
                 body = bytes(rng.getrandbits(8) for _ in range(L))
@@ -1825,6 +1840,16 @@ class C15(Prop):
                 for _ in range(4):
                     ops.append("ROUNDTRIP %s #str" % g.gen_msg(n, "valid"))
                 enc_full.append(("ENCODE " + g.gen_msg(n, "valid"), n))
+        # the same list type built several times on ONE builder: a full list first (frames of 256..1023 payload bytes), then
+        # empty, one element, half -- the length field and the count on the wire must be those of each message
+        for n, tops in self.list_types(g):
+            caps = [c for _, k, c, _ in tops if k != "str"]
+            if not caps:
+                continue
+            cap = min(caps)
+            seq = [g.gen_msg(n, "valid", n=k) for k in (cap, 0, 1, cap // 2)]
+            seq.append(seq[0])
+            ops.append("BUILDSEQ " + " ".join(seq))
         # the free text of 1029 at its two capacities (255 bytes, 127 characters) and just below
         if 1029 in g.layouts:
             for cps, tg in (([0x4e65] * 85, "255b"), ([0x4e65] * 84 + [0xe9], "254b"), ([0xe9] * 126 + [0x20ac], "255b"), ([0x61] * 127, "127c"), ([0xe9] * 127, "254b"), ([0x1f600] * 63 + [0x4e65], "255b")):
@@ -1870,6 +1895,19 @@ class C15(Prop):
                 return None if res.startswith("VCorrupt") else "a frame whose count field exceeds the capacity (%s) decoded to %s" % (tag, res[:30])
             if tag.startswith("trunc"):
                 return None if res.startswith("VCorrupt") else "a frame whose body is shorter than its count implies decoded to %s" % res[:30]
+            return None
+        if toks[0] == "BUILDSEQ":
+            num = int(toks[1][4:toks[1].index("(")])
+            parts = res.split(" ; ")
+            for j, (r, k) in enumerate(zip(parts, ("all", "0", "1", "half of the", "all"))):
+                if not r.startswith("OK "):
+                    return "build %d on a reused builder (type %d, %s elements) gave %s" % (j + 1, num, k, r[:30])
+                bad = frame_well_formed(unhex(r[3:]), num)
+                if bad:
+                    return "build %d on a reused builder (type %d, %s elements): %s" % (j + 1, num, k, bad)
+            # the first and the last build are the same message: the same frame
+            if parts[0] != parts[-1]:
+                return "the same full list (type %d) built first and fifth on one builder gives different frames" % num
             return None
         if toks[0] == "ROUNDTRIP" and tag.startswith("text:"):
             if not res.startswith("OK ") or " D1 VMsg1029(" not in res:
@@ -1975,6 +2013,27 @@ class C20(Prop):
             hdr = vt.parse_msg(g.gen_msg(1230, "valid"))[2][1][:-1]
             ents = [("T", [("G", b0, c0), ("f", f32_bits(0.5))]) for b0, c0 in ((1, 67), (1, 80), (2, 67), (2, 80))]
             ops.append("SERDE " + vt.show_msg(("Msg", 1230, ("T", hdr + [("L", ents)]))) + " #allsig")
+            # every kind of float a caller can put into the message (no NaN): largest and smallest finite, subnormal, zeros, infinities
+            for fb in (0x7F7FFFFF, 0xFF7FFFFF, 0x00000001, 0x80000001, 0x00800000, 0x00000000, 0x80000000, 0x7F800000, 0xFF800000, 0x3F7FFFFF):
+                ents = [("T", [("G", 1, 67), ("f", fb)])]
+                ops.append("SERDE " + vt.show_msg(("Msg", 1230, ("T", hdr + [("L", ents)]))) + " #allsig")
+        for num in (1059, 1065):
+            if num in g.layouts:
+                hdr = vt.parse_msg(g.gen_msg(num, "valid"))[2][1][:-1]
+                b0, c0, _ = g.ssr[str(num)][0]
+                for fb in (0x7F7FFFFF, 0xFF7FFFFF, 0x00000001, 0x80000000, 0x7F800000):
+                    ops.append("SERDE " + vt.show_msg(("Msg", num, ("T", hdr + [("L", [("T", [("i", 1), ("G", b0, c0), ("f", fb)])])]))) + " #allsig")
+        # texts with NUL characters at the end, at the start and alone
+        if 1029 in g.layouts:
+            for cps in ([114, 101, 115, 116, 0], [0], [0, 0, 0], [0, 97], [97, 0, 98, 0]):
+                ops.append("SERDE VMsg1029(T{i1,i2,i3,C%s}) #allsig" % ".".join(map(str, cps)))
+        for num in (1007, 1033):
+            if num in g.layouts:
+                m = vt.parse_msg(g.gen_msg(num, "valid"))
+                for i, (_, f) in enumerate(g.layouts[num]["fields"]):
+                    if f["k"] == "str":
+                        m[2][1][i] = ("C", [65, 66, 164])
+                ops.append("SERDE " + vt.show_msg(m) + " #allsig")
         # frames built byte by byte (not through any constructor): text of 250..255 bytes, descriptors at capacity
         if 1029 in g.layouts:
             for cps in ([0x6e2c] * 85, [0x44f] * 125 + [49, 50, 51, 52, 53], [97] * 127, [0x6e2c] * 84 + [0xe9, 97], [0x1f600] * 63 + [97, 98, 99]):
@@ -1999,7 +2058,7 @@ class C20(Prop):
             return "serde round trip panicked"
         if op.endswith("#allsig") and not res.startswith("EQ true"):
             # the harness itself builds the message through Deserialize: a refusal here is a refusal of a valid message
-            return "a message whose signal identifiers are all in its own table does not pass through serde: %s" % res[:70]
+            return "a valid message (all signals in its own table, finite or infinite floats, any text) does not pass through serde unchanged: %s" % res[:70]
         if res.startswith("EQ "):
             t = res.split(" ")
             if t[3] == "true" and t[1] != "true":
